@@ -31,8 +31,10 @@ type HookRouter struct {
 	mu sync.Mutex
 	// HoldCustomize, when set, is called (and may block) before a customize answer that names related resources is returned.
 	HoldCustomize func()
-	Calls         []HookCall
-	sim           *vs.Server
+	// Answer, when set, computes the response body (nil: the fixed default answers below).
+	Answer func(url string, body map[string]any) map[string]any
+	Calls  []HookCall
+	sim    *vs.Server
 }
 
 type HookCall struct {
@@ -50,8 +52,16 @@ func (h *HookRouter) RoundTrip(req *http.Request) (*http.Response, error) {
 	m, _ := vs.DecodeJSON(body)
 	h.mu.Lock()
 	h.Calls = append(h.Calls, HookCall{URL: req.URL.String(), At: time.Now(), Body: m})
+	answer := h.Answer
 	h.mu.Unlock()
 	resp := map[string]any{"children": []any{}, "attachments": []any{}, "status": map[string]any{"seen": true}}
+	if answer != nil {
+		if r := answer(req.URL.String(), m); r != nil {
+			b, _ := json.Marshal(r)
+			return &http.Response{StatusCode: 200, Status: "200 OK", Proto: "HTTP/1.1", ProtoMajor: 1, ProtoMinor: 1,
+				Header: http.Header{"Content-Type": []string{"application/json"}}, Body: io.NopCloser(bytes.NewReader(b)), ContentLength: int64(len(b)), Request: req}, nil
+		}
+	}
 	if strings.HasSuffix(req.URL.Path, "/customize") {
 		resp = map[string]any{"relatedResources": []any{}}
 	}
@@ -121,6 +131,7 @@ func NewC20Env() *C20Env {
 	c20TransportOnce.Do(func() { http.DefaultTransport = c20Router })
 	c20Router.mu.Lock()
 	c20Router.Calls = nil
+	c20Router.Answer = nil
 	c20Router.mu.Unlock()
 	w := NewWorld()
 	scheme := runtime.NewScheme()
